@@ -789,7 +789,9 @@ pub fn c13(rec: &mut Rec, lm: &Landmarks, rng: &mut Rng, thorough: bool) {
     // second) must be an error, whatever the order of the tokens and whether the date is a day of the month or of the year
     {
         let nfmts = ["%Y-%m-%dT%H:%M:%S", "%Y-%jT%H:%M:%S", "%j %Y %H:%M:%S", "%H:%M:%S %Y-%j", "%Y-%m-%d %H:%M:%S.%f", "%S:%M:%H %d/%m/%Y", "%Y/%j %S.%M.%H", "%Y-%j %H:%M"];
-        let dates: [(i32, u8, u8, u16); 7] = [(2023, 4, 10, 100), (2016, 12, 31, 366), (2016, 12, 30, 365), (2015, 6, 30, 181), (2017, 1, 1, 1), (1971, 12, 31, 365), (2023, 12, 31, 365)];
+        // (the last four: a day of year that the year does not have - only the formats with %j see it)
+        let dates: [(i32, u8, u8, u16); 11] = [(2023, 4, 10, 100), (2016, 12, 31, 366), (2016, 12, 30, 365), (2015, 6, 30, 181), (2017, 1, 1, 1), (1971, 12, 31, 365), (2023, 12, 31, 365),
+            (2023, 12, 31, 366), (2100, 12, 31, 366), (2023, 1, 1, 0), (2024, 12, 31, 367)];
         let times: [(u8, u8, u8); 9] = [(12, 0, 60), (23, 59, 60), (0, 0, 60), (23, 59, 59), (23, 58, 60), (24, 0, 0), (23, 60, 0), (23, 59, 61), (0, 59, 60)];
         for f in nfmts {
             for (y, mo, d, j) in dates {
@@ -803,6 +805,7 @@ pub fn c13(rec: &mut Rec, lm: &Landmarks, rng: &mut Rng, thorough: bool) {
                         .replace("%M", &format!("{mi:02}"))
                         .replace("%S", &format!("{ss:02}"))
                         .replace("%f", "000000000");
+                    m.rec.episode(); // the judgement of a sentence does not depend on the register
                     fmt_parse_ev(&mut m, f, &t);
                 }
             }
